@@ -149,9 +149,10 @@ class argument_interpreter:
                 # Calculate and apply tie-breaker value depending on expert level.
                 # Arguments with lower expert level are preferentially
                 # chosen if otherwise they would be ambiguous.
-                # Only the best matches compete in the tie-break.
+                # Only the best matches compete in the tie-break (in integers:
+                # an expert level of any size must not overflow a float).
                 scores = [
-                    score - (exp_lvl / 100) if score == max_score else float("-inf")
+                    100 * score - exp_lvl if score == max_score else float("-inf")
                     for score, exp_lvl in zip(scores, expert_level)
                 ]
                 max_score = max(scores)
